@@ -66,7 +66,7 @@ func (c *Ctx) execCall(st *State, fr *Frame, instr ssa.Instruction, call *ssa.Ca
 		for i, a := range call.Args {
 			env[fmt.Sprintf("carg%d", i+ai)] = c.valueOf(st, fr, a)
 		}
-		se := &SpecEnv{c: c, st: st, vars: env, pkg: c.pkgOfFrame(fr), old: fr.entry, fr: fr}
+		se := &SpecEnv{c: c, st: st, vars: env, pkg: c.pkgOfFrame(fr), old: fr.entry, fr: fr, internal: true}
 		for _, cl := range bcs {
 			for _, cj := range se.splitConjuncts(cl.E, 0) {
 				g, unresolved := c.proveAtReturn(se, cj)
@@ -92,7 +92,17 @@ func (c *Ctx) execCall(st *State, fr *Frame, instr ssa.Instruction, call *ssa.Ca
 	if acs := c.afterClauses(fr, call); len(acs) > 0 {
 		pre := st.snap()
 		k = func(st2 *State, results []T) {
-			se := &SpecEnv{c: c, st: st2, vars: fr.env, pkg: c.pkgOfFrame(fr), old: pre, fr: fr}
+			envA := map[string]T{}
+			for kk, vv := range fr.env {
+				envA[kk] = vv
+			}
+			for i, r := range results {
+				envA[fmt.Sprintf("result%d", i)] = r
+			}
+			if len(results) > 0 {
+				envA["result"] = results[0]
+			}
+			se := &SpecEnv{c: c, st: st2, vars: envA, pkg: c.pkgOfFrame(fr), old: pre, fr: fr, internal: true}
 			for _, cl := range acs {
 				c.assumedClauses[c.fnKey()+": after "+cl.Callee+" "+cl.With+" assume "+normSpace(cl.Text)] = true
 				st2.assume(se.assumeF(cl.E))
@@ -245,9 +255,11 @@ func (c *Ctx) inline(st *State, fr *Frame, instr ssa.Instruction, callee *ssa.Fu
 	for i, fv := range callee.FreeVars {
 		if i < len(bindings) {
 			nf.regs[fv] = bindings[i]
-			// free variables are addresses of captured variables
+			// free variables are addresses of captured variables (or, for never-reassigned ones, values)
 			if pt, ok := fv.Type().Underlying().(*types.Pointer); ok {
 				st.vars[c.frameVarKey(nf, fv.Name())] = varBinding{val: bindings[i], isAddr: true, ty: pt.Elem()}
+			} else {
+				st.vars[c.frameVarKey(nf, fv.Name())] = varBinding{val: bindings[i], ty: fv.Type()}
 			}
 		} else {
 			c.abort("closure %s called without bindings", callee)
@@ -766,16 +778,20 @@ func (c *Ctx) frameCheckCall(st *State, fr *Frame, instr ssa.Instruction, name s
 			case "Addr":
 				ds = append(ds, "(> (root "+l.Idx+") "+c.h0+")")
 			}
+			if l.Idx == "*" {
+				// the callee may change this ghost field of any owner: the caller must allow the same
+				ds = nil
+			}
 			for _, tl := range locs {
 				if tl.Kind == "ghost" && tl.Key == l.Key {
 					if tl.Idx == "*" || tl.Idx == l.Idx {
 						ds = append(ds, "true")
-					} else {
+					} else if l.Idx != "*" {
 						ds = append(ds, "(= "+tl.Idx+" "+l.Idx+")")
 					}
 				}
 			}
-			gs = append(gs, or(ds...))
+			gs = append(gs, orFalse(or(ds...)))
 		}
 	}
 	g := and(gs...)
@@ -1079,7 +1095,7 @@ func (c *Ctx) loopHeader(fr *Frame, li *loopInfo, b, pred *ssa.BasicBlock, st *S
 	if st.active[key] == 0 {
 		// first arrival: establish invariant
 		assignPhis(vals)
-		se := &SpecEnv{c: c, st: st, vars: fr.env, pkg: c.pkgOfFrame(fr), old: fr.entry, fr: fr}
+		se := &SpecEnv{c: c, st: st, vars: fr.env, pkg: c.pkgOfFrame(fr), old: fr.entry, fr: fr, internal: true}
 		for _, cl := range invs {
 			for _, cj := range se.splitConjuncts(cl.E, 0) {
 				g := se.prove(cj)
@@ -1110,7 +1126,7 @@ func (c *Ctx) loopHeader(fr *Frame, li *loopInfo, b, pred *ssa.BasicBlock, st *S
 		}
 		assignPhis(hv)
 		// Allocs with names defined before the loop keep their binding (addresses do not change)
-		se2 := &SpecEnv{c: c, st: st, vars: fr.env, pkg: c.pkgOfFrame(fr), old: fr.entry, fr: fr}
+		se2 := &SpecEnv{c: c, st: st, vars: fr.env, pkg: c.pkgOfFrame(fr), old: fr.entry, fr: fr, internal: true}
 		for _, cl := range invs {
 			st.assume(se2.assumeF(cl.E))
 		}
@@ -1129,7 +1145,7 @@ func (c *Ctx) loopHeader(fr *Frame, li *loopInfo, b, pred *ssa.BasicBlock, st *S
 		}
 	}()
 	assignPhis(vals)
-	se := &SpecEnv{c: c, st: st, vars: fr.env, pkg: c.pkgOfFrame(fr), old: fr.entry, fr: fr}
+	se := &SpecEnv{c: c, st: st, vars: fr.env, pkg: c.pkgOfFrame(fr), old: fr.entry, fr: fr, internal: true}
 	for _, cl := range invs {
 		for _, cj := range se.splitConjuncts(cl.E, 0) {
 			g := se.prove(cj)
